@@ -241,16 +241,17 @@ def _dense_core(ctx, f, name, acc, recv):
 
 def r3(ctx):
     f = ctx.func(I + "__iter__")
-    # the format variable: assigned from a getFormat() call
+    def gatoms(st, g=None):
+        return {pat.catom(ctx, g or f, t, pol, False) for t, pol in atomic_guards(st)}
+    # the format variable: the one the dispatch compares with the literal 'C'
     fv = None
     for n in f.own_nodes():
-        if isinstance(n, ast.Assign) and isinstance(n.targets[0], ast.Name) and \
-                text(n.value).replace(" ", "").endswith(".getFormat()"):
-            fv = n.targets[0].id
-    ctx.require(fv, "C07.R3: __iter__ no longer reads a format (getFormat())")
-
-    def gatoms(st):
-        return {pat.catom(ctx, f, t, pol, False) for t, pol in atomic_guards(st)}
+        if isinstance(n, ast.Return):
+            for a in gatoms(n):
+                if a[0] == "==" and "'C'" in (a[1], a[2]):
+                    fv = a[2] if a[1] == "'C'" else a[1]
+    ctx.require(fv and fv.isidentifier(),
+                "C07.R3: __iter__ no longer dispatches on a format variable")
     table = {}
     other = None
     for n in f.own_nodes():
@@ -294,6 +295,24 @@ def r3(ctx):
     for n in f.own_nodes():
         if isinstance(n, ast.Assign) and text(n.targets[0]) == fv:
             src.append((text(n.value).replace(" ", ""), gatoms(n)))
+    if len(src) == 1 and src[0][0].endswith("(self)") and not src[0][1]:
+        # fmt = helper(self): the helper's returns are the sources, its
+        # parameter read as `self`
+        asg = [n for n in f.own_nodes() if isinstance(n, ast.Assign)
+               and text(n.targets[0]) == fv][0]
+        tg = ctx.ty.resolve(f, asg.value)
+        hs = [h for h in (getattr(tg, "funcs", None) or []) if h.node is not None]
+        if len(hs) == 1 and len(hs[0].params) == 1 and not \
+                ctx.ty.facts_at(hs[0], hs[0].params[0], hs[0].node.body[-1])[0]:
+            h = hs[0]
+            import re as _re
+            sub = lambda t: _re.sub(r"\b%s\b" % _re.escape(h.params[0]), "self", t)
+            src = []
+            for r in pat.returns(h):
+                ats = set()
+                for a in gatoms(r, h):
+                    ats.add(tuple(sub(x) if isinstance(x, str) else x for x in a))
+                src.append((sub(text(r.value).replace(" ", "")), ats))
     own = [s_ for s_ in src if s_[0] == "self.getOwner().getFormat()" and
            pat.A("is not", "self.getOwner()", "None") in s_[1]]
     ra = [s_ for s_ in src if s_[0] == "self.getRankAttrs().getFormat()" and
